@@ -95,9 +95,13 @@ func vfGetEnv(prop string) *vfEnv {
 	return e
 }
 
+// vfQuickFactor scales every quick-tier case count (the per-workload numbers in the harness files
+// are the base unit; quick runs are sized for about a minute per property on 16 cores).
+const vfQuickFactor = 4
+
 // n scales a per-tier case count and splits it over shards.
 func (e *vfEnv) n(quick, thorough int) int {
-	total := quick
+	total := quick * vfQuickFactor
 	if e.tier == "thorough" {
 		total = thorough
 	}
